@@ -62,8 +62,8 @@ Definition own (j : nat) (c : cb) : Prop :=
   match c with CSpawn x | CStep x | CNotify x _ | CCheck x _ => x = j | _ => False end.
 
 (* a change of job j's record that keeps the token state; callbacks that concern j may have been consumed *)
-Lemma livq_update_pw : forall W s s' j r' (Q Q' : cb -> Prop),
-  LivQ W s Q -> Inv W s ->
+Lemma livq_update_pw0 : forall W s s' j r' (Q Q' : cb -> Prop),
+  LivQ W s Q ->
   updated s s' j r' -> avail s' = avail s -> held r' = held (jobs s j) ->
   (forall c, Q c -> Q' c \/ own j c) ->
   (pc r' = PSpawned -> Q' (CSpawn j)) ->
@@ -79,7 +79,7 @@ Lemma livq_update_pw : forall W s s' j r' (Q Q' : cb -> Prop),
   wf W = true ->
   LivQ W s' Q'.
 Proof.
-  intros W s s' j r' Q Q' L I EJ EA EH HQ HS HW OT OJ HR VW WF.
+  intros W s s' j r' Q Q' L EJ EA EH HQ HS HW OT OJ HR VW WF.
   destruct EJ as (SAME & ATJ). assert (EJ : updated s s' j r') by (split; auto).
   assert (KEEP : forall c, Q c -> ~ own j c -> Q' c).
   { intros c Hc N1. destruct (HQ c Hc) as [X|X]; auto. contradiction. }
@@ -122,7 +122,7 @@ Lemma livq_update : forall W s s' j r' (Q Q' : cb -> Prop),
   wf W = true ->
   LivQ W s' Q'.
 Proof.
-  intros W s s' j r' Q Q' L I EJ. apply livq_update_pw; auto. apply updated_of_eq; auto.
+  intros W s s' j r' Q Q' L I EJ. apply livq_update_pw0; auto. apply updated_of_eq; auto.
 Qed.
 
 Lemma returned_finished : forall W s k r, Inv W s -> pc (jobs s k) = PReturned r -> finished (st (jobs s k)) = true.
@@ -665,30 +665,44 @@ Proof.
   destruct (acquire_l (avail s) (held (jobs s j)) (deps W j) 0) as [[av hd] [i|]] eqn:ACQ.
   - (* aborted start *)
     pose proof (livq_acquire L Jn ACQ) as L1.
-    pose proof (@inv_acquired W s j hd av WF I P) as I1.
-    set (s1 := s_avail (setjob s j (w_held (jobs s j) hd)) av) in *.
-    assert (P1 : pc (jobs s1 j) = PWoken ALockIn) by (simpl; rewrite upd_same; exact P).
-    assert (S1 : started (pc (jobs s1 j)) = true) by (rewrite P1; auto).
-    set (s2 := check W all_fixed s1 j i).
-    assert (L2 : LivQ W s2 (fun c => In c (queue s2) \/ c = CStep j)).
-    { apply (@livq_check W s1 j i (fun c => In c (queue s1) \/ c = CStep j)); auto.
-      intros c [X|X]; left; [left; apply check_queue; exact X|right; exact X]. }
-    destruct (@inv_check W s1 j i WF I1 S1) as (I2 & _). fold s2 in I2.
-    assert (P2 : pc (jobs s2 j) = PWoken ALockIn).
-    { unfold s2. rewrite check_pc; auto. rewrite P1. discriminate. }
+    destruct (@inv_acquired W s j hd av WF I P) as (I1 & _).
+    set (s1a := s_avail (setjob s j (w_held (jobs s j) hd)) av) in *.
+    set (r' := w_pc (w_held (jobs s j) hd) (PExt ALockOutAbort)).
+    set (s1 := s_avail (setjob s j r') av) in *.
+    assert (J1 : jobs s1a j = w_held (jobs s j) hd) by (simpl; apply upd_same).
+    assert (S1a : started (pc (jobs s1a j)) = true) by (rewrite J1; simpl; rewrite P; auto).
+    assert (L1b : LivQ W s1 (fun c => In c (queue s1))).
+    { set (Q := fun c => In c (queue s1a) \/ c = CStep j) in *.
+      set (Q' := fun c => In c (queue s1)).
+      assert (EJ : updated s1a s1 j r').
+      { split; simpl; [intros x N; rewrite !upd_other; auto|apply upd_same]. }
+      assert (EA : avail s1 = avail s1a) by reflexivity.
+      assert (EH : held r' = held (jobs s1a j)) by (rewrite J1; reflexivity).
+      assert (HQ : forall c, Q c -> Q' c \/ own j c) by (intros c [X| ->]; [left; exact X|right; simpl; auto]).
+      assert (HS : pc r' = PSpawned -> Q' (CSpawn j)) by (simpl; discriminate).
+      assert (HW : is_woken (pc r') = true -> Q' (CStep j)) by (simpl; discriminate).
+      assert (OT : forall i0 t c, started (pc r') = true -> nth_error (deps W j) i0 = Some (DTok t c) ->
+         nth_error (cur r') i0 = Some DWAIT -> (avail s1a t < c)%nat \/ Q' (CNotify j i0)).
+      { intros i0 t c _ Dp Cu. assert (Cu1 : nth_error (cur (jobs s1a j)) i0 = Some DWAIT) by (rewrite J1; exact Cu).
+        destruct (V_tok L1 j i0 S1a Dp Cu1) as [X|[X|X]]; auto. discriminate. }
+      assert (OJ : forall i0 k, started (pc r') = true -> nth_error (deps W j) i0 = Some (DJob k) ->
+         nth_error (cur r') i0 = Some DWAIT -> (forall r0, pc (jobs s1a k) <> PReturned r0) \/ Q' (CCheck j i0)).
+      { intros i0 k _ Dp Cu. assert (Cu1 : nth_error (cur (jobs s1a j)) i0 = Some DWAIT) by (rewrite J1; exact Cu).
+        destruct (V_job L1 j i0 S1a Dp Cu1) as [X|[X|X]]; auto. discriminate. }
+      assert (HR : forall r0, pc r' = PReturned r0 -> (exists r1, pc (jobs s1a j) = PReturned r1) \/
+         (forall x i1, started (pc (jobs s1a x)) = true -> nth_error (deps W x) i1 = Some (DJob j) ->
+            nth_error (cur (jobs s1a x)) i1 = Some DWAIT -> Q' (CCheck x i1))) by (simpl; discriminate).
+      assert (VW : (wst s1 = WStarting -> Q' CWaitStart) /\ (wst s1 = WWoken -> Q' CWakeExit) /\ (wst s1 = WBlocked -> unfinished s1 <> 0)).
+      { destruct (V_wait L1) as (F1 & F2 & F3). split; [|split]; auto; intros X;
+          [destruct (F1 X) as [Y|Y]|destruct (F2 X) as [Y|Y]]; auto; discriminate. }
+      exact (@livq_update_pw0 W s1a s1 j r' Q Q' L1 EJ EA EH HQ HS HW OT OJ HR VW WF). }
+    assert (S1 : started (pc (jobs s1 j)) = true) by (simpl; rewrite upd_same; reflexivity).
     unfold Liv.
-    apply (@livq_update W s2 _ j (w_pc (jobs s2 j) (PExt ALockOutAbort)) (fun c => In c (queue s2) \/ c = CStep j)); auto; simpl.
-    + intros c [X| ->]; [left; auto|right; simpl; auto].
-    + discriminate.
-    + discriminate.
-    + intros i0 t c _ Dp Cu. destruct (V_tok L2 j i0) with (t := t) (c := c) as [X|[X|X]]; auto; [rewrite P2; auto|discriminate].
-    + intros i0 k _ Dp Cu. destruct (V_job L2 j i0) with (k := k) as [X|[X|X]]; auto; [rewrite P2; auto|discriminate].
-    + discriminate.
-    + destruct (V_wait L2) as (F1 & F2 & F3). split; [|split]; auto; intros X;
-        [destruct (F1 X) as [Y|Y]|destruct (F2 X) as [Y|Y]]; auto; discriminate.
+    apply (@livq_check W s1 j i (fun c => In c (queue s1))); auto.
+    + intros c X. left. apply check_queue. exact X.
+    + apply check_queue_woken.
   - (* launch *)
     pose proof (livq_acquire L Jn ACQ) as L1.
-    pose proof (@inv_acquired W s j hd av WF I P) as I1.
     set (s1 := s_avail (setjob s j (w_held (jobs s j) hd)) av) in *.
     set (r := w_held (jobs s j) hd).
     set (r' := w_pc (w_st (w_launches r (S (launches r))) RUNNING) (PExt ALockOutRun)).
@@ -719,7 +733,7 @@ Proof.
     assert (VW : (wst s' = WStarting -> Q' CWaitStart) /\ (wst s' = WWoken -> Q' CWakeExit) /\ (wst s' = WBlocked -> unfinished s' <> 0)).
     { destruct (V_wait L1) as (F1 & F2 & F3). split; [|split]; auto; intros X;
         [destruct (F1 X) as [Y|Y]|destruct (F2 X) as [Y|Y]]; auto; discriminate. }
-    exact (@livq_update_pw W s1 s' j r' Q Q' L1 I1 EJ EA EH HQ HS HW OT OJ HR VW WF).
+    exact (@livq_update_pw0 W s1 s' j r' Q Q' L1 EJ EA EH HQ HS HW OT OJ HR VW WF).
 Qed.
 
 Lemma liv_adopt_return : forall W s j, wf W = true -> LivQ W s (fun c => In c (queue s) \/ c = CStep j) -> Inv W s ->
@@ -863,12 +877,109 @@ Proof.
   congruence.
 Qed.
 
-Theorem no_hang : forall W s, wf W = true -> posreq W -> reachable W s ->
+(* ------------------------------------------------------------------ frames on the coroutine positions *)
+Unset Implicit Arguments.
+(* pcs after a check: only the target may move, from PAwaitReady to PWokenReady, with its wake-up queued *)
+Lemma check_pcs : forall W s j i,
+  (forall x, x <> j -> pc (jobs (check W all_fixed s j i) x) = pc (jobs s x)) /\
+  ((pc (jobs (check W all_fixed s j i) j) = pc (jobs s j) /\ length (queue (check W all_fixed s j i)) = length (queue s)) \/
+   (pc (jobs s j) = PAwaitReady /\ pc (jobs (check W all_fixed s j i) j) = PWokenReady)).
+Proof.
+  intros W s j i. destruct (check_cases' W s j i) as [(_ & E)|(d & r' & w & _ & C & E)]; rewrite E; [auto|].
+  apply check_l_async in C. destruct C as (A & Wk & _).
+  assert (X : jobs (if w then enqueue (setjob s j r') (CStep j) else setjob s j r') = upd (jobs s) j r') by (destruct w; reflexivity).
+  rewrite X. split; [intros x N; rewrite upd_other; auto|]. rewrite upd_same.
+  destruct (ao_pc A) as [Y|(Y1 & Y2 & _)]; [left|right; auto].
+  split; auto. destruct w; auto. exfalso. apply (proj1 Wk eq_refl). exact Y.
+Qed.
+
+Lemma commit_pcs : forall s j p x, pc (jobs (commit s j p) x) = if Nat.eqb x j then pc (fst p) else pc (jobs s x).
+Proof. intros. unfold commit. destruct (snd p); simpl; unfold upd; destruct (Nat.eqb x j); auto. Qed.
+
+Lemma release_pcs : forall W s j x, pc (jobs (release_all W s j) x) = pc (jobs s x).
+Proof. intros. rewrite release_all_jobs. unfold upd. destruct (Nat.eqb x j) eqn:E; auto. apply Nat.eqb_eq in E. subst; auto. Qed.
+
+(* a job that has not been submitted is left alone by every callback *)
+Lemma run_cb_pnot : forall W s c x, pc (jobs s x) = PNot -> pc (jobs (run_cb W all_fixed s c) x) = PNot.
+Proof.
+  intros W s c x PN.
+  assert (CHK : forall s0 j i, pc (jobs s0 x) = PNot -> pc (jobs (check W all_fixed s0 j i) x) = PNot).
+  { intros s0 j i P0. destruct (check_pcs W s0 j i) as (A & [(B1 & _)|(B1 & _)]).
+    - destruct (Nat.eq_dec x j) as [->|N]; [rewrite B1; auto|rewrite A; auto].
+    - destruct (Nat.eq_dec x j) as [->|N]; [rewrite P0 in B1; discriminate|rewrite A; auto]. }
+  destruct c as [j|j|j i|j i| |]; simpl.
+  - destruct (pc (jobs s j)) eqn:P; auto. unfold run_spawn. rewrite commit_pcs.
+    destruct (Nat.eqb x j) eqn:E; auto. apply Nat.eqb_eq in E; subst. rewrite PN in P; discriminate.
+  - unfold run_step. destruct (Nat.eq_dec x j) as [->|N]; [rewrite PN; exact PN|].
+    assert (E : Nat.eqb x j = false) by (apply Nat.eqb_neq; auto).
+    destruct (pc (jobs s j)) eqn:P; auto.
+    + rewrite commit_pcs, E. auto.
+    + destruct a.
+      * unfold start_body. destruct (acquire_l (avail s) (held (jobs s j)) (deps W j) 0) as [[av hd] [i|]]; simpl.
+        -- apply CHK. simpl. rewrite upd_other; auto.
+        -- rewrite upd_other; auto.
+      * unfold abort_return. rewrite commit_pcs, E, release_pcs. auto.
+      * simpl. rewrite upd_other; auto.
+      * unfold proc_return. rewrite commit_pcs, E, release_pcs. auto.
+      * unfold done_return. simpl. rewrite upd_other; auto. unfold notify_exit. destruct (wst _); exact PN.
+      * unfold adopt_return. destruct (adopted W j); auto. rewrite commit_pcs, E. auto.
+  - apply CHK; auto.
+  - destruct (nth_error (deps W j) i) as [[k|t c]|]; auto. destruct (0 <? avail s t)%nat; auto.
+  - destruct (wst s); auto; unfold wait_check; destruct (unfinished s =? 0); exact PN.
+  - destruct (wst s); auto; unfold wait_check; destruct (unfinished s =? 0); exact PN.
+Qed.
+
+Lemma step_pnot : forall W s l s' x, step W s l = Some s' -> pc (jobs s x) = PNot ->
+  pc (jobs s' x) = PNot \/ (l = LSubmit x /\ fits W x = true).
+Proof.
+  intros W s l s' j H PN. unfold step in H. destruct l as [j0|n|j0|]; simpl in H.
+  - destruct ((j0 <? njobs W)%nat && match pc (jobs s j0) with PNot => true | _ => false end
+            && forallb (dep_submitted s) (deps W j0) && fits W j0) eqn:G; [|discriminate].
+    inversion H; subst s'. destruct (Nat.eq_dec j j0) as [->|NE].
+    + right. apply andb_true_iff in G. split; [reflexivity|exact (proj2 G)].
+    + left. rewrite <- PN. unfold submit.
+      destruct (reg s (j_ident (spec W j0))) as [k|]; [destruct (st (jobs s k))|]; simpl; rewrite ?upd_other; auto.
+  - destruct (nth_error (queue s) n) as [c|]; [|discriminate]. inversion H; subst s'.
+    left. apply run_cb_pnot. exact PN.
+  - destruct (pc (jobs s j0)) eqn:P; try discriminate. inversion H; subst s'. left.
+    simpl. destruct (Nat.eq_dec j j0) as [->|NE]; [rewrite PN in P; discriminate|rewrite upd_other; auto].
+  - left. destruct (wst s); try discriminate; inversion H; subst s'; exact PN.
+Qed.
+
+(* a job that has been submitted fits: Scheduler.submit refuses the others (a963860) *)
+Lemma submitted_fits : forall W s j, reachable W s -> pc (jobs s j) <> PNot -> fits W j = true.
+Proof.
+  intros W s j (ls & H). unfold steps in H.
+  assert (G : forall ls s0, steps_gen W all_fixed s0 ls = Some s -> (pc (jobs s0 j) <> PNot -> fits W j = true) ->
+              pc (jobs s j) <> PNot -> fits W j = true).
+  { clear H ls. induction ls as [|l r IH]; simpl; intros s0 H A N.
+    - inversion H; subst. auto.
+    - destruct (step_gen W all_fixed s0 l) as [s1|] eqn:S; [|discriminate].
+      apply (IH s1 H); auto. intros N1.
+      destruct (pc (jobs s0 j)) eqn:P; try (apply A; discriminate).
+      destruct (step_pnot W s0 l s1 j S P) as [X|(_ & X)]; [contradiction|exact X]. }
+  apply (G ls (init W) H). intros N. exfalso. apply N. reflexivity.
+Qed.
+
+Lemma sumreq_ge : forall ds t c, In (DTok t c) ds -> (c <= sumreq ds t)%nat.
+Proof.
+  induction ds as [|d r IH]; simpl; intros t c H; [contradiction|].
+  destruct H as [->|H]; [rewrite Nat.eqb_refl; lia|].
+  specialize (IH t c H). destruct d; [exact IH|lia].
+Qed.
+
+(* ... and a job that does not fit is refused: `raise ValueError` in Scheduler.submit *)
+Lemma oversubscribed_refused : forall W s j, fits W j = false -> step W s (LSubmit j) = None.
+Proof. intros W s j F. unfold step. simpl. rewrite F. rewrite andb_false_r. reflexivity. Qed.
+Set Implicit Arguments.
+
+Lemma no_hang_core : forall W s, wf W = true -> posreq W -> Liv W s -> Inv W s ->
+  (forall j t c, spawned (pc (jobs s j)) = true -> In (DTok t c) (deps W j) -> (c <= total W t)%nat) ->
   queue s = [] -> has_pending s W = false ->
   (forall j, spawned (pc (jobs s j)) = true -> exists r, pc (jobs s j) = PReturned r) /\
   (wst s = WNone \/ wst s = WReturned \/ wst s = WRaised).
 Proof.
-  intros W s WF PQ R QE HP. destruct (liv_reachable WF PQ R) as (L & I). unfold Liv in L. rewrite QE in L.
+  intros W s WF PQ L I CAP QE HP. unfold Liv in L. rewrite QE in L.
   (* 1. only suspended-on-event or returned coroutines remain *)
   assert (PCS : forall j, spawned (pc (jobs s j)) = true ->
             pc (jobs s j) = PAwaitReady \/ exists r, pc (jobs s j) = PReturned r).
@@ -887,7 +998,7 @@ Proof.
     destruct (NOSP j) as [P|[(k & P)|S]].
     - destruct (l_un (I_loc I j)) as (_ & H & _); [rewrite P; auto|congruence].
     - destruct (l_un (I_loc I j)) as (_ & H & _); [rewrite P; auto|congruence].
-    - destruct (l_held (I_loc I j) X) as [Y|[Y|[Y|Y]]]; destruct (PCS j S) as [Z|(r & Z)]; rewrite Z in Y; discriminate. }
+    - destruct (l_held (I_loc I j) X) as [Y|[Y|Y]]; destruct (PCS j S) as [Z|(r & Z)]; rewrite Z in Y; discriminate. }
   assert (AV : forall t, avail s t = total W t).
   { intros t. pose proof (V_cons L t) as C. unfold hsum in C. rewrite hsum_l_zero in C; auto. lia. }
   (* 3. nobody sleeps *)
@@ -914,8 +1025,7 @@ Proof.
         destruct (IH k) as (r & Y); auto; [lia|]. apply (X r Y).
       + destruct (V_tok L j i ST DP Hi) as [X|[]]. rewrite AV in X.
         assert (IN : In (DTok t c) (deps W j)) by (eapply nth_error_In; eauto).
-        pose proof (@wf_dep W j (DTok t c) WF IN) as Y. simpl in Y.
-        apply andb_true_iff in Y. destruct Y as (_ & Y). apply Nat.leb_le in Y. lia.
+        pose proof (CAP j t c S IN) as Y. lia.
     - destruct (l_F LJ) as [F|F]; [eauto|rewrite SW in F; discriminate|rewrite P in F; discriminate]. }
   assert (ALL : forall j, spawned (pc (jobs s j)) = true -> exists r, pc (jobs s j) = PReturned r).
   { intros j Sj. apply (RET (Datatypes.S j) j); auto. }
@@ -935,6 +1045,20 @@ Proof.
     rewrite Z0. reflexivity.
   - exfalso. apply (F2 eq_refl).
 Qed.
+
+Theorem no_hang : forall W s, wf W = true -> posreq W -> reachable W s ->
+  queue s = [] -> has_pending s W = false ->
+  (forall j, spawned (pc (jobs s j)) = true -> exists r, pc (jobs s j) = PReturned r) /\
+  (wst s = WNone \/ wst s = WReturned \/ wst s = WRaised).
+Proof.
+  intros W s WF PQ R. destruct (liv_reachable WF PQ R) as (L & I). apply no_hang_core; auto.
+  intros j t c S IN.
+  assert (F : fits W j = true).
+  { apply submitted_fits with (s := s); auto. intros X. rewrite X in S. discriminate. }
+  unfold fits in F. rewrite forallb_forall in F. specialize (F _ IN). simpl in F. apply Nat.leb_le in F.
+  pose proof (sumreq_ge (deps W j) t c IN). lia.
+Qed.
+
 
 (* the hypotheses of no_hang are satisfiable: the run of W_fail to its end *)
 Lemma posreq_W_fail : posreq W_fail.
@@ -1108,4 +1232,487 @@ Proof.
   split; [apply K0; apply ko_adopted; reflexivity|]. split; [apply O1; apply ok_adopted; reflexivity|].
   apply U2; [reflexivity|reflexivity|].
   intros k D. vm_compute in D. destruct D as [D|[D|[]]]; inversion D; subst. apply ok_adopted. reflexivity.
+Qed.
+
+(* ------------------------------------------------------------------ start attempts (C06: livelock, finding A1 of the audit) *)
+(* the repaired scheduler minus the refusal of over-subscribed jobs at submission (a963860) *)
+Definition f5off := {| fx2 := true; fx3 := true; fx4 := true; fx5 := false; fx6 := true |}.
+Definition step5 (W : workload) := step_gen W f5off.
+Inductive reach5 (W : workload) : state -> Prop :=
+  | r5_init : reach5 W (init W)
+  | r5_step : forall s l s', reach5 W s -> step5 W s l = Some s' -> reach5 W s'.
+
+Lemma step5_cases : forall W s l s', step5 W s l = Some s' ->
+  step W s l = Some s' \/
+  (exists j, l = LSubmit j /\ (j < njobs W)%nat /\ pc (jobs s j) = PNot /\
+             forallb (dep_submitted s) (deps W j) = true /\ s' = submit W all_fixed s j).
+Proof.
+  intros W s l s' H. unfold step5, step in *. destruct l as [j|n|j|]; simpl in *; auto.
+  destruct ((j <? njobs W)%nat && match pc (jobs s j) with PNot => true | _ => false end
+            && forallb (dep_submitted s) (deps W j)) eqn:E; simpl in H; [|discriminate].
+  inversion H; subst s'. right. exists j.
+  apply andb_true_iff in E. destruct E as (E & E3). apply andb_true_iff in E. destruct E as (E1 & E2).
+  split; auto. split; [apply Nat.ltb_lt; auto|]. split; [destruct (pc (jobs s j)); try discriminate; auto|]. split; auto.
+Qed.
+
+Lemma reach5_inv : forall W s, wf W = true -> posreq W -> reach5 W s -> Inv W s /\ Liv W s.
+Proof.
+  intros W s WF PQ R. induction R as [|s l s' R (I & L) H].
+  - split; [apply inv_init|apply liv_init].
+  - destruct (step5_cases W s l s' H) as [S|(j & -> & Jn & P & FS & ->)].
+    + split; [eapply inv_step; eauto|eapply liv_step; eauto].
+    + split; [apply (@inv_submit W s j WF I Jn P FS)|apply liv_submit; auto].
+Qed.
+
+Lemma reachable_reach5 : forall W s, reachable W s -> reach5 W s.
+Proof.
+  intros W s (ls & H). unfold steps in H. revert H. generalize (r5_init W). generalize (init W).
+  induction ls as [|l r IH]; simpl; intros s0 R0 H.
+  - inversion H; subst; auto.
+  - destruct (step_gen W all_fixed s0 l) as [s1|] eqn:E; [|discriminate].
+    apply (IH s1); auto. apply r5_step with (s := s0) (l := l); auto.
+    unfold step5. destruct l as [j|n|j|]; simpl in *; auto.
+    destruct ((j <? njobs W)%nat && match pc (jobs s0 j) with PNot => true | _ => false end
+              && forallb (dep_submitted s0) (deps W j)); simpl in *; auto.
+    destruct (fits W j); simpl in *; auto; discriminate.
+Qed.
+
+Lemma acquire_l_success : forall ds av hd i av' hd', acquire_l av hd ds i = (av', hd', None) ->
+  forall t, (sumreq ds t <= av t)%nat.
+Proof.
+  induction ds as [|d r IH]; simpl; intros av hd i av' hd' H t; [lia|].
+  destruct d as [k|t0 c]; [eapply IH; eauto|].
+  destruct (av t0 <? c)%nat eqn:E; [discriminate|]. apply Nat.ltb_ge in E.
+  specialize (IH _ _ _ _ _ H t). unfold upd in IH. destruct (Nat.eqb t0 t) eqn:E1.
+  - apply Nat.eqb_eq in E1. subst t0. rewrite Nat.eqb_refl in IH. lia.
+  - rewrite Nat.eqb_sym, E1 in IH. lia.
+Qed.
+
+Lemma check_launches : forall W s j i k, launches (jobs (check W all_fixed s j i) k) = launches (jobs s k).
+Proof.
+  intros W s j i k. destruct (check_cases' W s j i) as [(_ & E)|(d & r' & w & _ & C & E)]; rewrite E; auto.
+  apply check_l_async in C. destruct C as (A & _).
+  assert (X : jobs (if w then enqueue (setjob s j r') (CStep j) else setjob s j r') = upd (jobs s) j r') by (destruct w; reflexivity).
+  rewrite X. unfold upd. destruct (Nat.eqb k j) eqn:Ek; auto. apply Nat.eqb_eq in Ek. subst. apply (ao_launches A).
+Qed.
+
+Lemma start_body_launches : forall W s j k,
+  launches (jobs (start_body W all_fixed s j) k) = launches (jobs s k) \/
+  (k = j /\ exists av hd, acquire_l (avail s) (held (jobs s j)) (deps W j) 0 = (av, hd, None)).
+Proof.
+  intros W s j k. unfold start_body.
+  destruct (acquire_l (avail s) (held (jobs s j)) (deps W j) 0) as [[av hd] [i|]] eqn:ACQ.
+  - left. simpl. unfold upd. destruct (Nat.eqb k j) eqn:Ek.
+    + apply Nat.eqb_eq in Ek. subst k. simpl. rewrite check_launches. simpl. rewrite upd_same. reflexivity.
+    + rewrite check_launches. simpl. unfold upd. rewrite Ek. reflexivity.
+  - destruct (Nat.eq_dec k j) as [->|N]; [right; split; auto; eauto|].
+    left. simpl. rewrite upd_other; auto.
+Qed.
+
+(* which transitions launch a job *)
+Lemma step_launches : forall W s l s' k, wf W = true -> Inv W s -> step W s l = Some s' ->
+  launches (jobs s' k) = launches (jobs s k) \/
+  (exists av hd, acquire_l (avail s) (held (jobs s k)) (deps W k) 0 = (av, hd, None)).
+Proof.
+  intros W s l s' k WF I H.
+  assert (Z0 : forall s1, stab0 s s1 -> launches (jobs s1 k) = launches (jobs s k)).
+  { intros s1 ST. destruct (ST k) as (_ & _ & _ & _ & [X|(X & _)]); [auto|discriminate]. }
+  unfold step in H. destruct l as [j|n|j|]; simpl in H.
+  - destruct ((j <? njobs W)%nat && match pc (jobs s j) with PNot => true | _ => false end
+              && forallb (dep_submitted s) (deps W j) && fits W j) eqn:E; [|discriminate].
+    inversion H; subst s'. apply andb_true_iff in E. destruct E as (E & _). apply andb_true_iff in E. destruct E as (E & E3).
+    apply andb_true_iff in E. destruct E as (E1 & E2). left. apply Z0.
+    assert (Jn : (j < njobs W)%nat) by (apply Nat.ltb_lt; auto).
+    assert (P : pc (jobs s j) = PNot) by (destruct (pc (jobs s j)); try discriminate; auto).
+    exact (proj2 (@inv_submit W s j WF I Jn P E3)).
+  - destruct (nth_error (queue s) n) as [c|] eqn:E; [|discriminate]. inversion H; subst s'. clear H.
+    destruct (@inv_dequeue W s n I) as (I0 & _).
+    assert (OK0 : cb_ok (s_queue s (remove_nth n (queue s))) c).
+    { pose proof (I_q I c (nth_error_In _ _ E)) as X. destruct c; simpl in *; auto. }
+    remember (s_queue s (remove_nth n (queue s))) as s0 eqn:ES0.
+    assert (JS : jobs s0 = jobs s) by (rewrite ES0; reflexivity).
+    assert (AS : avail s0 = avail s) by (rewrite ES0; reflexivity).
+    assert (OK : cb_ok s0 c) by exact OK0.
+    assert (Z1 : forall s1, stab0 s0 s1 -> launches (jobs s1 k) = launches (jobs s0 k)).
+    { intros s1 ST. destruct (ST k) as (_ & _ & _ & _ & [X|(X & _)]); [exact X|discriminate]. }
+    rewrite <- JS, <- AS.
+    destruct c as [j|j|j i|j i| |]; simpl.
+    + destruct (pc (jobs s0 j)) eqn:P; auto. left. apply Z1. exact (proj2 (@inv_spawn W s0 j WF I0 P)).
+    + unfold run_step. destruct (pc (jobs s0 j)) eqn:P; auto.
+      * left. apply Z1. exact (proj2 (@inv_after_ready W s0 j WF I0 P)).
+      * destruct a.
+        -- destruct (start_body_launches W s0 j k) as [X|(-> & av & hd & X)]; [left; exact X|right; eauto].
+        -- left. apply Z1. exact (proj2 (@inv_abort_return W s0 j WF I0 P)).
+        -- left. apply Z1. exact (proj2 (@inv_lockoutrun W s0 j WF I0 P)).
+        -- left. apply Z1. exact (proj2 (@inv_proc_return W s0 j WF I0 P)).
+        -- left. apply Z1. exact (proj2 (@inv_done_return W s0 j WF I0 P)).
+        -- left. apply Z1. exact (proj2 (@inv_adopt_return W s0 j WF I0 P)).
+    + left. apply Z1. exact (proj2 (@inv_check W s0 j i WF I0 OK)).
+    + destruct (nth_error (deps W j) i) as [[k0|t c]|]; auto.
+      destruct (0 <? avail s0 t)%nat; auto. left. apply Z1. exact (proj2 (@inv_check W s0 j i WF I0 OK)).
+    + destruct (wst s0); auto; left; apply Z1; exact (proj2 (@inv_wait_check W s0 I0)).
+    + destruct (wst s0); auto; left; apply Z1; exact (proj2 (@inv_wait_check W s0 I0)).
+  - destruct (pc (jobs s j)) eqn:P; try discriminate. inversion H; subst s'. left. apply Z0. exact (proj2 (@inv_deliver W s j a WF I P)).
+  - left. destruct (wst s); try discriminate; inversion H; subst s'; reflexivity.
+Qed.
+
+(* a job is only launched when every token can give, at that moment, all that the job asks of it *)
+Theorem launch_needs_room : forall W s l s' j t, wf W = true -> posreq W -> reach5 W s -> step5 W s l = Some s' ->
+  launches (jobs s' j) <> launches (jobs s j) ->
+  (sumreq (deps W j) t <= avail s t)%nat /\ (avail s t <= total W t)%nat.
+Proof.
+  intros W s l s' j t WF PQ R H N. destruct (reach5_inv W s WF PQ R) as (I & L).
+  split; [|pose proof (V_cons L t); lia].
+  destruct (step5_cases W s l s' H) as [S|(j0 & -> & Jn & P & FS & ->)].
+  - destruct (step_launches W s l s' j WF I S) as [X|(av & hd & X)]; [contradiction|].
+    eapply acquire_l_success; eauto.
+  - exfalso. apply N. destruct (@inv_submit W s j0 WF I Jn P FS) as (_ & ST).
+    destruct (ST j) as (_ & _ & _ & _ & [X|(X & _)]); [exact X|discriminate].
+Qed.
+
+Theorem oversubscribed_never_launched : forall W s j t, wf W = true -> posreq W -> reach5 W s ->
+  (total W t < sumreq (deps W j) t)%nat -> launches (jobs s j) = 0%nat.
+Proof.
+  intros W s j t WF PQ R O. induction R as [|s l s' R IH H]; [reflexivity|].
+  destruct (Nat.eq_dec (launches (jobs s' j)) (launches (jobs s j))) as [E|N]; [congruence|].
+  destruct (launch_needs_room W s l s' j t WF PQ R H N). lia.
+Qed.
+
+(* the audit's workload: one job with two requests of 1 on a token of 1 *)
+Definition W_twice : workload :=
+  {| w_jobs := [ {| j_deps := [DTok 0 1; DTok 0 1]; j_code := 0; j_marker := false; j_ident := 0; j_adopt := None |} ];
+     w_tokens := [1%nat] |}.
+
+Lemma posreq_W_twice : posreq W_twice.
+Proof.
+  intros j t c H. destruct j as [|j]; [simpl in H; repeat (destruct H as [H|H]; [inversion H; subst; lia|]); contradiction|].
+  unfold deps, spec in H. simpl in H. destruct j; simpl in H; contradiction.
+Qed.
+
+Lemma cap_W_twice : forall (s : state) j t c, spawned (pc (jobs s j)) = true -> In (DTok t c) (deps W_twice j) -> (c <= total W_twice t)%nat.
+Proof.
+  intros s j t c _ H. destruct j as [|j]; [simpl in H; repeat (destruct H as [H|H]; [inversion H; subst; unfold total; simpl; lia|]); contradiction|].
+  unfold deps, spec in H. simpl in H. destruct j; simpl in H; contradiction.
+Qed.
+
+(* under the hypotheses of no_hang (wf, posreq), without the refusal at submission: once the job has
+   been submitted it never returns and the scheduler never comes to rest, whatever the schedule *)
+Theorem livelock_refuted : exists W, wf W = true /\ posreq W /\
+  (exists s, reach5 W s /\ spawned (pc (jobs s 0)) = true) /\
+  forall s, reach5 W s -> spawned (pc (jobs s 0)) = true ->
+    launches (jobs s 0) = 0%nat /\ (forall r, pc (jobs s 0) <> PReturned r) /\
+    ~ (queue s = [] /\ has_pending s W = false).
+Proof.
+  exists W_twice. split; [reflexivity|]. split; [exact posreq_W_twice|]. split.
+  { exists (submit W_twice all_fixed (init W_twice) 0). split; [|vm_compute; reflexivity].
+    apply r5_step with (s := init W_twice) (l := LSubmit 0); [apply r5_init|reflexivity]. }
+  intros s R S. destruct (reach5_inv W_twice s eq_refl posreq_W_twice R) as (I & L).
+  assert (L0 : launches (jobs s 0) = 0%nat).
+  { apply (oversubscribed_never_launched W_twice s 0 0 eq_refl posreq_W_twice R). vm_compute. lia. }
+  assert (NR : forall r, pc (jobs s 0) <> PReturned r).
+  { intros r P. destruct (final_truthful_inv W_twice s 0 r I P) as (RT & B & E).
+    change (adopted W_twice 0) with (@None jstate) in B. simpl in B.
+    assert (X : r = ERROR).
+    { apply E. intros D. destruct (proj1 B D) as [Y|(Y & _)]; [discriminate|]. rewrite L0 in Y. lia. }
+    assert (FD : fdep (jobs s 0) = true) by (apply (l_E (I_loc I 0)); [reflexivity|congruence|exact L0]).
+    destruct (I_FD I 0 FD) as (k & D & _). simpl in D. destruct D as [D|[D|[]]]; discriminate. }
+  split; [exact L0|]. split; [exact NR|].
+  intros (Q & HP). destruct (@no_hang_core W_twice s eq_refl posreq_W_twice L I (cap_W_twice s) Q HP) as (A & _).
+  destruct (A 0%nat S) as (r & P). exact (NR r P).
+Qed.
+
+(* an aborted start is always caused by ANOTHER job that holds the token at that moment (and that job
+   has a completion pending or a step queued): a fitting job never blocks itself *)
+Lemma acquire_l_fail : forall ds av hd i0 av' hd' i, acquire_l av hd ds i0 = (av', hd', Some i) ->
+  (i0 <= i)%nat /\ exists t c, nth_error ds (i - i0) = Some (DTok t c) /\ (av t < sumreq ds t)%nat.
+Proof.
+  induction ds as [|d r IH]; simpl; intros av hd i0 av' hd' i H; [discriminate|].
+  destruct d as [k|t0 c0].
+  - destruct (IH _ _ _ _ _ _ H) as (Le & t & c & N & Lt). split; [lia|]. exists t, c. split; auto.
+    replace (i - i0)%nat with (S (i - S i0))%nat by lia. exact N.
+  - destruct (av t0 <? c0)%nat eqn:E.
+    + inversion H; subst. apply Nat.ltb_lt in E. split; [lia|]. exists t0, c0.
+      rewrite Nat.sub_diag. split; [reflexivity|]. rewrite Nat.eqb_refl. lia.
+    + apply Nat.ltb_ge in E. destruct (IH _ _ _ _ _ _ H) as (Le & t & c & N & Lt). split; [lia|]. exists t, c. split.
+      * replace (i - i0)%nat with (S (i - S i0))%nat by lia. exact N.
+      * unfold upd in Lt. destruct (Nat.eqb t0 t) eqn:E1.
+        -- apply Nat.eqb_eq in E1. subst t0. rewrite Nat.eqb_refl in Lt. lia.
+        -- rewrite Nat.eqb_sym, E1 in Lt. lia.
+Qed.
+
+Lemma fits_sumreq : forall W j t c, fits W j = true -> In (DTok t c) (deps W j) -> (sumreq (deps W j) t <= total W t)%nat.
+Proof.
+  intros W j t c F H. unfold fits in F. rewrite forallb_forall in F. specialize (F _ H). simpl in F.
+  apply Nat.leb_le. exact F.
+Qed.
+
+Lemma hsum_l_pos : forall s t l, (hsum_l s t l > 0)%nat -> exists k, In k l /\ (hcount (held (jobs s k)) t > 0)%nat.
+Proof.
+  induction l as [|x r IH]; simpl; intros H; [lia|].
+  destruct (Nat.eq_dec (hcount (held (jobs s x)) t) 0) as [E|E].
+  - destruct IH as (k & K1 & K2); [lia|]. exists k. auto.
+  - exists x. split; auto. lia.
+Qed.
+
+Theorem abort_blames_other : forall W s j i t c av hd, wf W = true -> posreq W -> reachable W s ->
+  fits W j = true -> pc (jobs s j) = PWoken ALockIn ->
+  acquire_l (avail s) (held (jobs s j)) (deps W j) 0 = (av, hd, Some i) ->
+  nth_error (deps W j) i = Some (DTok t c) ->
+  exists k, k <> j /\ (k < njobs W)%nat /\ (hcount (held (jobs s k)) t > 0)%nat /\
+            exists a, pc (jobs s k) = PExt a \/ pc (jobs s k) = PWoken a.
+Proof.
+  intros W s j i t c av hd WF PQ R FIT P ACQ Dp.
+  destruct (@liv_reachable W s WF PQ R) as (L & I).
+  pose proof (I_loc I j) as LJ. unfold jl in LJ.
+  assert (HJ : held (jobs s j) = []).
+  { apply (held_nil_of_pc LJ); rewrite P; try discriminate. reflexivity. }
+  destruct (acquire_l_fail _ _ _ _ _ _ _ ACQ) as (_ & t' & c' & N & Lt).
+  rewrite Nat.sub_0_r, Dp in N. inversion N; subst t' c'.
+  assert (IN : In (DTok t c) (deps W j)) by (eapply nth_error_In; eauto).
+  pose proof (fits_sumreq W j t c FIT IN) as F.
+  pose proof (V_cons L t) as C.
+  assert (HS : (hsum W s t > 0)%nat) by lia.
+  destruct (hsum_l_pos s t _ HS) as (k & K1 & K2).
+  exists k. apply in_seq in K1.
+  assert (KJ : k <> j) by (intros ->; rewrite HJ in K2; simpl in K2; lia).
+  split; auto. split; [lia|]. split; auto.
+  assert (HK : held (jobs s k) <> []) by (intros X; rewrite X in K2; simpl in K2; lia).
+  destruct (l_held (I_loc I k) HK) as [Y|[Y|Y]]; try (eexists; rewrite Y; eauto; fail).
+  destruct (pc (jobs s k)) as [| | | | |a|a|]; simpl in Y; try discriminate; eauto.
+Qed.
+
+(* hence: when no other job holds anything, the start of a fitting job succeeds *)
+Corollary calm_start_succeeds : forall W s j, wf W = true -> posreq W -> reachable W s ->
+  fits W j = true -> pc (jobs s j) = PWoken ALockIn ->
+  (forall k, k <> j -> held (jobs s k) = []) ->
+  exists av hd, acquire_l (avail s) (held (jobs s j)) (deps W j) 0 = (av, hd, None).
+Proof.
+  intros W s j WF PQ R FIT P CALM.
+  destruct (acquire_l (avail s) (held (jobs s j)) (deps W j) 0) as [[av hd] [i|]] eqn:ACQ; [|eauto].
+  exfalso. destruct (acquire_l_fail _ _ _ _ _ _ _ ACQ) as (_ & t & c & N & _). rewrite Nat.sub_0_r in N.
+  destruct (abort_blames_other W s j i t c av hd WF PQ R FIT P ACQ N) as (k & KJ & _ & K2 & _).
+  rewrite (CALM k KJ) in K2. simpl in K2. lia.
+Qed.
+
+(* ------------------------------------------------------------------ termination of everything but start attempts *)
+(* how far the coroutine of a job still has to go, start attempts (delivery of `lock (aenter)`) apart *)
+Definition rank (p : pcT) : nat :=
+  match p with
+  | PNot | PDup _ | PReturned _ => 0
+  | PSpawned => 20
+  | PWoken ALockIn => 18
+  | PExt ALockOutAbort => 17 | PWoken ALockOutAbort => 16
+  | PAwaitReady => 15 | PWokenReady => 14
+  | PExt ALockIn => 13
+  | PExt ALockOutRun => 12 | PWoken ALockOutRun => 11
+  | PExt AProc => 10 | PWoken AProc => 9
+  | PExt AAdopt => 8 | PWoken AAdopt => 7
+  | PExt ADoneH => 6 | PWoken ADoneH => 5
+  end%nat.
+Fixpoint srank_l (s : state) (js : list nat) : nat :=
+  match js with [] => 0 | j :: r => rank (pc (jobs s j)) + srank_l s r end%nat.
+Definition srank (W : workload) (s : state) : nat := srank_l s (seq 0 (njobs W)).
+
+(* internal transitions other than the start attempts *)
+Definition inflight (s : state) (l : label) : Prop :=
+  match l with
+  | LRun _ => True
+  | LDeliver j => pc (jobs s j) <> PExt ALockIn
+  | _ => False
+  end.
+(* lexicographic order on (remaining coroutine work, ready callbacks) *)
+Definition mless (W : workload) (s' s : state) : Prop :=
+  (srank W s' < srank W s)%nat \/ (srank W s' = srank W s /\ (length (queue s') < length (queue s))%nat).
+
+Lemma srank_l_same : forall s s' l, (forall x, In x l -> pc (jobs s' x) = pc (jobs s x)) -> srank_l s' l = srank_l s l.
+Proof. induction l as [|a r IH]; simpl; intros H; auto. rewrite H, IH; auto. Qed.
+
+Lemma srank_l_dec : forall s s' j a n, (forall x, x <> j -> pc (jobs s' x) = pc (jobs s x)) ->
+  (a <= j < a + n)%nat ->
+  (srank_l s' (seq a n) + rank (pc (jobs s j)) = srank_l s (seq a n) + rank (pc (jobs s' j)))%nat.
+Proof.
+  intros s s' j a n H. revert a. induction n; intros a R; simpl; [lia|].
+  destruct (Nat.eq_dec a j) as [->|N].
+  - rewrite (@srank_l_same s s' (seq (S j) n)); [lia|]. intros x Hx. apply in_seq in Hx. apply H. lia.
+  - rewrite (H a N). specialize (IHn (S a)). lia.
+Qed.
+
+Lemma srank_dec : forall W s s' j, (j < njobs W)%nat -> (forall x, x <> j -> pc (jobs s' x) = pc (jobs s x)) ->
+  (rank (pc (jobs s' j)) < rank (pc (jobs s j)))%nat -> (srank W s' < srank W s)%nat.
+Proof. intros W s s' j Jn H R. unfold srank. pose proof (@srank_l_dec s s' j 0 (njobs W) H). lia. Qed.
+
+Lemma srank_same : forall W s s', (forall x, pc (jobs s' x) = pc (jobs s x)) -> srank W s' = srank W s.
+Proof. intros. apply srank_l_same; auto. Qed.
+
+Lemma remove_nth_length : forall A n (l : list A) x, nth_error l n = Some x -> length l = S (length (remove_nth n l)).
+Proof. induction n; destruct l; simpl; intros; try discriminate; auto. f_equal. eapply IHn; eauto. Qed.
+
+Theorem inflight_decreases : forall W s l s', wf W = true -> reachable W s -> step W s l = Some s' ->
+  inflight s l -> mless W s' s.
+Proof.
+  intros W s l s' WF R H IF. pose proof (reachable_inv W s WF R) as I.
+  unfold step in H. destruct l as [j|n|j|]; simpl in H, IF; try contradiction.
+  - (* a ready callback *)
+    destruct (nth_error (queue s) n) as [c|] eqn:E; [|discriminate]. inversion H; subst s'. clear H.
+    pose proof (remove_nth_length _ n (queue s) c E) as QL.
+    remember (s_queue s (remove_nth n (queue s))) as s0 eqn:ES0.
+    assert (JS : jobs s0 = jobs s) by (rewrite ES0; reflexivity).
+    assert (Q0 : length (queue s) = S (length (queue s0))) by (rewrite ES0; exact QL).
+    assert (SR0 : srank W s0 = srank W s) by (apply srank_same; intros; rewrite JS; auto).
+    assert (NOOP : mless W s0 s) by (right; split; [exact SR0|lia]).
+    assert (I0 : Inv W s0) by (rewrite ES0; apply (@inv_dequeue W s n I)).
+    assert (DEC : forall s1 j, (j < njobs W)%nat -> (forall x, x <> j -> pc (jobs s1 x) = pc (jobs s0 x)) ->
+              (rank (pc (jobs s1 j)) < rank (pc (jobs s0 j)))%nat -> mless W s1 s).
+    { intros s1 j Jn A B. left. rewrite <- SR0. eapply srank_dec; eauto. }
+    assert (LT : forall j, pc (jobs s0 j) <> PNot -> (j < njobs W)%nat) by (intros j X; apply inv_job_lt with (s := s0); auto).
+    assert (CHK : forall j i, mless W (check W all_fixed s0 j i) s).
+    { intros j i. destruct (check_pcs W s0 j i) as (A & [(B1 & B2)|(B1 & B2)]).
+      - right. split; [|lia]. rewrite <- SR0. apply srank_same. intros x. destruct (Nat.eq_dec x j) as [->|N]; auto.
+      - apply (DEC _ j); auto; [apply LT; rewrite B1; discriminate|rewrite B1, B2; simpl; lia]. }
+    destruct c as [j|j|j i|j i| |]; simpl.
+    + destruct (pc (jobs s0 j)) eqn:P; auto.
+      apply (DEC _ j); [apply LT; rewrite P; discriminate| |].
+      * intros x N. unfold run_spawn. rewrite commit_pcs. destruct (Nat.eqb x j) eqn:Ex; auto. apply Nat.eqb_eq in Ex. contradiction.
+      * unfold run_spawn. simpl fx3. simpl fx6. rewrite commit_pcs, Nat.eqb_refl, P. rewrite <- adopted_some.
+        pose proof (I_loc I0 j) as LJ. unfold jl in LJ.
+        destruct (@spawn_l_ok (deps W j) (j_marker (spec W j)) (j_code (spec W j)) (adopted W j) (jobs s0 j)
+                    (map (dep_status s0) (deps W j)) LJ P (map_length _ _)) as (_ & _ & _ & _ & _ & _ & _ & _ & _ & _ & _ & SHP).
+        destruct SHP as [Y|[Y|[Y|Y]]]; rewrite Y; simpl; lia.
+    + unfold run_step. destruct (pc (jobs s0 j)) eqn:P; auto.
+      * (* PWokenReady *)
+        apply (DEC _ j); [apply LT; rewrite P; discriminate| |].
+        -- intros x N. rewrite commit_pcs. destruct (Nat.eqb x j) eqn:Ex; auto. apply Nat.eqb_eq in Ex. contradiction.
+        -- rewrite commit_pcs, Nat.eqb_refl, P.
+           pose proof (I_loc I0 j) as LJ. unfold jl in LJ.
+           pose proof (after_ready_l_shape (jobs s0 j)) as (_ & _ & _ & _ & _ & _ & _ & S_pc).
+           destruct S_pc as [(Y&_)|[(Y&F)|(Y&_)]]; rewrite Y; simpl; try lia.
+           exfalso. destruct (l_WS LJ P) as [Z|Z]; rewrite Z in F; [|discriminate].
+           (* READY is not finished, but then after_ready_l goes to the lock *)
+           unfold after_ready_l in Y. simpl in Y. rewrite Z in Y. simpl in Y. discriminate.
+      * destruct a.
+        -- (* start attempt already delivered *)
+           apply (DEC _ j); [apply LT; rewrite P; discriminate| |].
+           ++ intros x N. unfold start_body.
+              destruct (acquire_l (avail s0) (held (jobs s0 j)) (deps W j) 0) as [[av hd] [i|]]; simpl.
+              ** rewrite (proj1 (check_pcs W _ j i) x N). simpl. rewrite upd_other; auto.
+              ** rewrite upd_other; auto.
+           ++ unfold start_body.
+              destruct (acquire_l (avail s0) (held (jobs s0 j)) (deps W j) 0) as [[av hd] [i|]]; simpl.
+              ** destruct (check_pcs W (s_avail (setjob s0 j (w_pc (w_held (jobs s0 j) hd) (PExt ALockOutAbort))) av) j i)
+                   as (_ & [(B1 & _)|(B1 & _)]).
+                 --- rewrite B1. simpl. rewrite upd_same, P. simpl. lia.
+                 --- simpl in B1. rewrite upd_same in B1. discriminate.
+              ** rewrite upd_same, P. simpl. lia.
+        -- (* the aborted start returns *)
+           apply (DEC _ j); [apply LT; rewrite P; discriminate| |].
+           ++ intros x N. unfold abort_return. rewrite commit_pcs. destruct (Nat.eqb x j) eqn:Ex; [apply Nat.eqb_eq in Ex; contradiction|].
+              apply release_pcs.
+           ++ unfold abort_return. rewrite commit_pcs, Nat.eqb_refl, P. simpl fx4.
+              destruct (@inv_release W s0 j WF I0) as (I1 & _); [rewrite P; reflexivity|].
+              pose proof (I_loc I1 j) as L1. unfold jl in L1.
+              assert (P1 : pc (jobs (release_all W s0 j) j) = PWoken ALockOutAbort) by (rewrite release_pcs; exact P).
+              assert (H1 : held (jobs (release_all W s0 j) j) = []) by (rewrite release_all_jobs, upd_same; reflexivity).
+              destruct (@abort_l_ok _ _ _ _ _ L1 P1 H1) as (_ & (_ & _ & _ & _ & _ & _ & _ & S_pc)).
+              destruct S_pc as [(Y&F)|[(Y&_)|(Y&_)]]; rewrite Y; simpl; lia.
+        -- apply (DEC _ j); [apply LT; rewrite P; discriminate| |]; simpl.
+           ++ intros x N. rewrite upd_other; auto.
+           ++ rewrite upd_same, P. simpl. lia.
+        -- apply (DEC _ j); [apply LT; rewrite P; discriminate| |].
+           ++ intros x N. unfold proc_return. rewrite commit_pcs. destruct (Nat.eqb x j) eqn:Ex; [apply Nat.eqb_eq in Ex; contradiction|].
+              apply release_pcs.
+           ++ unfold proc_return. rewrite commit_pcs, Nat.eqb_refl, P.
+              destruct (@inv_release W s0 j WF I0) as (I1 & _); [rewrite P; reflexivity|].
+              pose proof (I_loc I1 j) as L1. unfold jl in L1.
+              assert (P1 : pc (jobs (release_all W s0 j) j) = PWoken AProc) by (rewrite release_pcs; exact P).
+              assert (H1 : held (jobs (release_all W s0 j) j) = []) by (rewrite release_all_jobs, upd_same; reflexivity).
+              destruct (@proc_l_ok _ _ _ _ _ L1 P1 H1) as (_ & _ & Y). rewrite Y. simpl. lia.
+        -- apply (DEC _ j); [apply LT; rewrite P; discriminate| |].
+           ++ intros x N. unfold done_return. simpl. rewrite upd_other; auto.
+              unfold notify_exit. destruct (wst _); reflexivity.
+           ++ unfold done_return. simpl. rewrite upd_same, P. simpl. lia.
+        -- apply (DEC _ j); [apply LT; rewrite P; discriminate| |].
+           ++ intros x N. unfold adopt_return. destruct (adopted W j); auto. rewrite commit_pcs.
+              destruct (Nat.eqb x j) eqn:Ex; auto. apply Nat.eqb_eq in Ex. contradiction.
+           ++ unfold adopt_return. pose proof (I_loc I0 j) as LJ. unfold jl in LJ.
+              destruct (adopted W j) as [v|] eqn:AD.
+              ** rewrite commit_pcs, Nat.eqb_refl, P.
+                 assert (FV : finished v = true).
+                 { unfold adopted in AD. destruct (j_adopt (spec W j)); inversion AD. apply adopt_state_finished. }
+                 destruct (@adopt_l_ok _ _ _ v _ LJ P FV) as (_ & _ & Y). rewrite Y. simpl. lia.
+              ** exfalso. apply (l_adpc LJ); [rewrite P; reflexivity|reflexivity].
+    + apply CHK.
+    + destruct (nth_error (deps W j) i) as [[k|t c]|]; auto. destruct (0 <? avail s0 t)%nat; auto.
+    + destruct (wst s0); auto; right; (split; [rewrite <- SR0; apply srank_same; intros x; unfold wait_check; destruct (unfinished s0 =? 0); reflexivity|]);
+        unfold wait_check; destruct (unfinished s0 =? 0); simpl; lia.
+    + destruct (wst s0); auto; right; (split; [rewrite <- SR0; apply srank_same; intros x; unfold wait_check; destruct (unfinished s0 =? 0); reflexivity|]);
+        unfold wait_check; destruct (unfinished s0 =? 0); simpl; lia.
+  - (* a completion other than `lock (aenter)` *)
+    destruct (pc (jobs s j)) eqn:P; try discriminate. inversion H; subst s'. left.
+    apply srank_dec with (j := j).
+    + apply inv_job_lt with (s := s); auto. rewrite P. discriminate.
+    + intros x N. simpl. rewrite upd_other; auto.
+    + simpl. rewrite upd_same, P. destruct a; simpl; try lia. exfalso. apply IF. reflexivity.
+Qed.
+
+(* hence no run made of callbacks and of completions other than start attempts is infinite: everything
+   in flight completes; only the delivery of `lock (aenter)` (a start attempt) can keep a run going *)
+Theorem inflight_terminates : forall W (f : nat -> state) (ls : nat -> label), wf W = true ->
+  reachable W (f 0%nat) ->
+  (forall n, step W (f n) (ls n) = Some (f (S n)) /\ inflight (f n) (ls n)) -> False.
+Proof.
+  intros W f ls WF.
+  assert (G : forall a b (g : nat -> state) (lg : nat -> label),
+            srank W (g 0%nat) = a -> length (queue (g 0%nat)) = b -> reachable W (g 0%nat) ->
+            (forall n, step W (g n) (lg n) = Some (g (S n)) /\ inflight (g n) (lg n)) -> False).
+  { induction a as [a IHa] using lt_wf_ind. induction b as [b IHb] using lt_wf_ind.
+    intros g lg Ea Eb R H. destruct (H 0%nat) as (S0 & F0).
+    pose proof (inflight_decreases W (g 0%nat) (lg 0%nat) (g 1%nat) WF R S0 F0) as M.
+    pose proof (reachable_step W (g 0%nat) (lg 0%nat) (g 1%nat) R S0) as R1.
+    destruct M as [M|(M1 & M2)].
+    - assert (LT : (srank W (g 1%nat) < a)%nat) by (rewrite <- Ea; exact M).
+      exact (IHa _ LT _ (fun n => g (S n)) (fun n => lg (S n)) eq_refl eq_refl R1 (fun n => H (S n))).
+    - assert (LT : (length (queue (g 1%nat)) < b)%nat) by (rewrite <- Eb; exact M2).
+      exact (IHb _ LT (fun n => g (S n)) (fun n => lg (S n)) (eq_trans M1 Ea) eq_refl R1 (fun n => H (S n))). }
+  intros R H. exact (G _ _ f ls eq_refl eq_refl R H).
+Qed.
+
+(* the hypotheses are satisfiable, and the restriction to in-flight work is needed: even a fitting job
+   (two requests of 1 on a token of 2) retries its start for ever while another job that holds one unit
+   is running and its exit is not delivered (busy retry; ended by the exit of that other job) *)
+Definition W_busy : workload :=
+  {| w_jobs := [ {| j_deps := [DTok 0 1]; j_code := 0; j_marker := false; j_ident := 0; j_adopt := None |};
+                 {| j_deps := [DTok 0 1; DTok 0 1]; j_code := 0; j_marker := false; j_ident := 1; j_adopt := None |} ];
+     w_tokens := [2%nat] |}.
+Definition X_busy_prefix := [XSubmit 0; XSubmit 1; XDeliver 0; XDeliver 0]%nat.
+Definition X_busy_round := [XDeliver 1; XDeliver 1]%nat.
+Definition X_busy9 := X_busy_prefix ++ X_busy_round ++ X_busy_round ++ X_busy_round ++ X_busy_round ++ X_busy_round
+                             ++ X_busy_round ++ X_busy_round ++ X_busy_round ++ X_busy_round.
+Definition busy_obs (xs : list ext) :=
+  let s := final W_busy all_fixed (expand W_busy all_fixed (init W_busy) xs) in
+  (pc (jobs s 0), pc (jobs s 1), st (jobs s 1), launches (jobs s 1), held (jobs s 1), avail s 0%nat).
+Example ex_busy_retry :
+  wf W_busy = true /\ fits W_busy 1 = true /\
+  is_some (steps_gen W_busy all_fixed (init W_busy) (expand W_busy all_fixed (init W_busy) X_busy9)) = true /\
+  busy_obs (X_busy_prefix ++ X_busy_round) = (PExt AProc, PExt ALockIn, READY, 0%nat, [], 1%nat) /\
+  busy_obs X_busy9 = (PExt AProc, PExt ALockIn, READY, 0%nat, [], 1%nat).
+Proof. split. vm_compute; reflexivity. split. vm_compute; reflexivity. split. vm_compute; reflexivity. split; vm_compute; reflexivity. Qed.
+
+(* ------------------------------------------------------------------ composition with model/Deps.v (C04) *)
+(* the two models meet in `job.dependencies`: when the job dependencies given to the scheduler for job j
+   contain what submit() computed from the parameters of its task (Deps.collect - the harness checks on
+   every run that the dependencies of the real job are that set, and replays the scheduler model with
+   them), job j is launched only after every job registered for a task reachable from its parameters,
+   and every explicit dependency, is DONE *)
+From XV Require model.Deps proofs.Deps_lemmas.
+Theorem launch_after_parameters : forall W s j h fuel root explicit ds,
+  wf W = true -> reachable W s ->
+  Deps.marks_ok h -> Deps.n_sub (Deps.get h root) = None ->
+  Deps.collect h fuel root explicit = Some ds ->
+  (forall k, In k ds -> In (DJob k) (deps W j)) ->
+  (launches (jobs s j) >= 1)%nat ->
+  forall k, Deps.reachv h (Deps.VRef root) k \/ In k explicit -> st (jobs s k) = DONE.
+Proof.
+  intros W s j h fuel root explicit ds WF R MK NS C LINK L k H.
+  apply (launched_deps_done W s j k WF R L). apply LINK.
+  apply (proj2 (Deps_lemmas.deps_exact h MK fuel root explicit ds NS C k)). exact H.
 Qed.
